@@ -107,6 +107,8 @@ class DataLoggerRun:
         from pyrtma.data_logger.formatters.msg_headers import MsgHeaderFormatter
         ch = self.ch
         ch.cap = min(ch.cap, 300_000)      # bounds a run in which stop()/close() would spin for ever
+        if self.forced.get("bulk"):
+            ch.cap = 300_000 + 40 * int(self.forced["bulk"])
         self.DCM = DCM
         self.clock = Clock()
         self.sched = Sched(ch, self.clock, p_switch=ch.choose("cfg.pswitch", [(1, 2), (1, 4), (3, 4)]))
@@ -128,6 +130,8 @@ class DataLoggerRun:
         self.dc = DCM.DataCollection("coll", self.tmp, "run", md, use_thread=True)
         fm = {"raw": RawFormatter, "json": JsonFormatter, "quicklogger": QLFormatter, "msg_header": MsgHeaderFormatter}
         nds = 1 + ch.pick("cfg.nds", 3)
+        if self.forced.get("bulk"):
+            nds = 1
         self.sets = []
         fmts = [self.forced.get("formatter") or ch.choose("cfg.fmt", ["raw", "json", "quicklogger", "raw", "json", "quicklogger", "msg_header"])
                 for _ in range(nds)]
@@ -151,6 +155,8 @@ class DataLoggerRun:
         for i in range(nds):
             fmt = fmts[i]
             sel = ch.weighted("cfg.sel", [(4, "all"), (6, "some"), (2, "one"), (1, "dup"), (1, "all_plus")])
+            if self.forced.get("bulk"):
+                sel = "all"
             if sel == "all":
                 types = [ALL]
             elif sel == "one":
@@ -167,12 +173,14 @@ class DataLoggerRun:
             else:
                 types = [t for t in self.msg_types if t > 0 and ch.flag("cfg.tsel", 1, 2)] or [26]
             sub = ch.choose("cfg.subdiv", [0, 0, 30, 600])
+            if self.forced.get("bulk"):
+                sub = 0
             ds = DSM.DataSet("coll", f"ds{i}", "", f"ds{i}", fm[fmt], sub, types, md)
             self.dc.add_data_set(ds)
             self.sets.append((ds, fmt, types, sub))
             self.expected[ds.name] = []
         # the configuration API may also replace or remove data sets before recording starts
-        for _ in range(ch.pick("cfg.reconf", 3)):
+        for _ in range(ch.pick("cfg.reconf", 3) if not self.forced.get("bulk") else 0):
             how = ch.choose("cfg.reconf_how", ["replace", "remove_add", "remove"])
             i = ch.pick("cfg.reconf_i", len(self.sets))
             old, fmt, types, sub = self.sets[i]
@@ -254,6 +262,8 @@ class DataLoggerRun:
     def on_yield(self, sched, label):
         """between any two steps the clock may move: flush / subdivision deadlines fall everywhere"""
         ch = self.ch
+        if self.forced.get("bulk"):
+            return          # (all of the messages arrive within one flush period and one file)
         if ch.flag("clk.move", 1, 6):
             wp = self.write_period
             dt = ch.choose("clk.dt", [0.01, 0.3, wp - 0.01, wp + 0.01, 29.9, 30.1, 0.6])
@@ -310,7 +320,7 @@ class DataLoggerRun:
         return pyrtma.Message(h, d), t
 
     # ------------------------------------------------------------------ ops
-    def op_update(self):
+    def op_update(self, quiet=False):
         dc = self.dc
         msg, t = self.make_msg()
         recording = dc._recording and not dc._paused
@@ -319,7 +329,8 @@ class DataLoggerRun:
             for ds, fmt, types, sub in self.sets:
                 if ALL in types or t in types:
                     self.expected[ds.name].append(raw)
-        self.t(f"update(msg #{self.n_msgs} type {t}){'' if recording else ' [not recording]'}")
+        if not quiet:
+            self.t(f"update(msg #{self.n_msgs} type {t}){'' if recording else ' [not recording]'}")
         dc.update(msg)
 
     def run(self) -> RunResult:
@@ -337,6 +348,13 @@ class DataLoggerRun:
             self.t("start()")
             dc.start()
             started = True
+            bulk = self.forced.get("bulk")
+            if bulk:
+                # a long recording: this many messages arrive between two flushes (no time passes)
+                self.t(f"{bulk} x update(msg)")
+                for _ in range(bulk):
+                    self.op_update(quiet=True)
+                self.res.probes[f"bulk_{bulk}"] += 1
             for _ in range(n_ops):
                 k = ch.weighted("op.kind", [(14, "update"), (1, "none"), (1, "pause"), (1, "resume"), (2, "clock"),
                                             (1, "yield")])
@@ -574,17 +592,20 @@ class DataLoggerRun:
         if any(ev[1] == "IS_SET" and ev[2] == "recorder" and ev[3] == "ev1" and ev[4] for ev in log):
             self.res.probes["writer_busy_seen"] += 1
         last_clear = None
-        for ev in log:
+        rec_set_since_clear = False
+        for ev in log:          # one pass (the log is in sequence order)
             if ev[1] == "CLEAR" and ev[2].startswith("writer") and ev[3] == "ev1":
                 last_clear = ev[0]
-            elif ev[1] == "SET" and ev[2].startswith("writer") and ev[3] == "ev2":
+                rec_set_since_clear = False
+            elif ev[1] == "SET" and ev[2] == "recorder" and ev[3] == "ev1":
                 if last_clear is not None:
-                    between = [e for e in log if last_clear < e[0] < ev[0] and e[1] == "SET" and e[2] == "recorder"
-                               and e[3] == "ev1"]
-                    if between:
-                        self.res.probes["writer_window_hit"] += 1
-                        self.res.window_hit = True
+                    rec_set_since_clear = True
+            elif ev[1] == "SET" and ev[2].startswith("writer") and ev[3] == "ev2":
+                if last_clear is not None and rec_set_since_clear:
+                    self.res.probes["writer_window_hit"] += 1
+                    self.res.window_hit = True
                 last_clear = None
+                rec_set_since_clear = False
 
 
 def run(choices, forced=None) -> RunResult:
@@ -597,4 +618,12 @@ def det_cases(tier):
         for n in (0, 1, 2, 3, 5, 8):
             for rep in range(4 if tier == "quick" else 40):
                 cases.append(dict(formatter=fmt, n_ops=n, rep=rep))
+    # long recordings: exactly 4096 / 8192 messages in one quicklogger file, and more than 65536 messages handed
+    # over between the last flush and stop()
+    cases.append(dict(formatter="quicklogger", n_ops=0, bulk=4096, wall_s=300))
+    cases.append(dict(formatter="quicklogger", n_ops=2, bulk=8192, wall_s=300))
+    cases.append(dict(formatter="raw", n_ops=0, bulk=66000, wall_s=600))
+    if tier == "thorough":
+        cases.append(dict(formatter="quicklogger", n_ops=0, bulk=66000, wall_s=900))
+        cases.append(dict(formatter="json", n_ops=0, bulk=66000, wall_s=900))
     return cases
